@@ -724,6 +724,11 @@ func subSmallObjects() mon.Sub {
 					a.Negotiate(parse(offers[c.Rng.Intn(len(offers))]))
 				}
 				a.Reset()
+				if c.Rng.Intn(2) == 0 {
+					// "the same configuration": the application may have re-configured the negotiator it re-uses
+					cfg = wsflate.Parameters{ServerNoContextTakeover: c.Rng.Intn(2) == 0, ClientNoContextTakeover: c.Rng.Intn(2) == 0, ClientMaxWindowBits: wsflate.WindowBits([]int{0, 9, 12}[c.Rng.Intn(3)]), ServerMaxWindowBits: wsflate.WindowBits([]int{0, 8, 11}[c.Rng.Intn(3)])}
+					a.Parameters = cfg
+				}
 				b := &wsflate.Extension{Parameters: cfg}
 				for i := 0; i < 3; i++ {
 					o := offers[c.Rng.Intn(len(offers))]
